@@ -55,10 +55,15 @@ impl<R: AsyncRead + Unpin + Send + Sync> AsyncReadPacket for R {
     }
 
     async fn read_string(&mut self) -> Result<String, Error> {
-        let length = self.read_varint().await? as usize;
+        // the length is sent by the peer: reject negative values and only buffer what is delivered
+        let length = self.read_varint().await?;
+        let length = u64::try_from(length).map_err(|_| Error::IllegalPacketLength)?;
 
-        let mut buffer = vec![0; length];
-        self.read_exact(&mut buffer).await?;
+        let mut buffer = Vec::new();
+        self.take(length).read_to_end(&mut buffer).await?;
+        if (buffer.len() as u64) < length {
+            return Err(std::io::Error::from(std::io::ErrorKind::UnexpectedEof).into());
+        }
 
         String::from_utf8(buffer).map_err(|_| Error::InvalidEncoding)
     }
@@ -96,10 +101,15 @@ impl<R: AsyncRead + Unpin + Send + Sync> AsyncReadPacket for R {
     }
 
     async fn read_bytes(&mut self) -> Result<Vec<u8>, Error> {
-        let length = self.read_varint().await? as usize;
+        // the length is sent by the peer: reject negative values and only buffer what is delivered
+        let length = self.read_varint().await?;
+        let length = u64::try_from(length).map_err(|_| Error::IllegalPacketLength)?;
 
-        let mut buffer = vec![0; length];
-        self.read_exact(&mut buffer).await?;
+        let mut buffer = Vec::new();
+        self.take(length).read_to_end(&mut buffer).await?;
+        if (buffer.len() as u64) < length {
+            return Err(std::io::Error::from(std::io::ErrorKind::UnexpectedEof).into());
+        }
 
         Ok(buffer)
     }
